@@ -38,7 +38,7 @@ class LStr:
         return f"lstr[{len(self.ch)}]"
 
 
-NOT_A_QUOTE = set()      # ids of terms known not to be quote characters (hex digits of \\u{..})
+NOT_A_QUOTE = {}         # id -> term, for terms known not to be quote characters (hex digits of \\u{..}); the terms are kept alive so that z3 cannot reuse their ids
 
 
 def bv(c):
@@ -48,7 +48,7 @@ def bv(c):
 def hexchar(v):
     t = z3.If(z3.ULT(v, 10), v + 48, v + 87)
     t = z3.simplify(t)
-    NOT_A_QUOTE.add(t.get_id())
+    NOT_A_QUOTE[t.get_id()] = t
     return t
 
 
@@ -256,6 +256,8 @@ def stubs():
         (r"^<(std::string::|alloc::string::)?String as Extend<char>>::extend(::<.*>)?$", m_extend),
         (r"^core::str::<impl str>::starts_with$", m_starts), (r"^core::str::<impl str>::ends_with$", m_ends),
         (r"^core::str::<impl str>::contains$", m_contains), (r"^core::str::<impl str>::len$", m_len),
+        (r"^((std::string::|alloc::string::)?String|core::str::<impl str>)::is_empty$", lambda I, st, a: SBool(z3.BoolVal(len(lstr(I, st, a[0]).ch) == 0))),
+        (r"^(std::string::|alloc::string::)?String::len$", m_len),
         (r"^(std|alloc|core)::str::<impl str>::replace$", m_replace),
         (r"^core::str::<impl str>::split$", m_split),
         (r"^<(std|core)::str::Split<.*> as Iterator>::map$", m_map),
@@ -314,7 +316,7 @@ def check_litfmt(R, drv, tier):
                         f"K-litfmt: the string {txt!r} is printed as {printed!r}, which does not lex back to it ({detail})",
                         {"prql": prog, "formatted": r.get("formatted"), "text": txt})
         elif r.get("ok"):
-            R.cov.setdefault("unobservable_models", []).append(["K-litfmt", txt, printed, detail])
+            R.engine_error(f"ENCODER-MISMATCH K-litfmt: the model text {txt!r} (printed {printed!r}: {detail}) survives fmt + re-parse in the real code")
         else:
             R.engine_error(f"K-litfmt: replay program for {txt!r} does not format: {str(r)[:200]}")
 
@@ -411,3 +413,212 @@ def check_litfmt(R, drv, tier):
     R.cov.setdefault("bounds", {})["K-litfmt"] = (f"strings of at most {L} characters over every Unicode scalar, and strings of {L + 1}..{LQ} characters over the alphabet "
                                                   "{double quote, single quote, backslash, a-z}; printer and reader bodies from the prqlc-parser MIR composed path by path")
     core.log(f"[K-litfmt] {nprint} printer paths, {nread} reader paths, {nq} queries, {nviol} violations in {time.time()-t0:.1f}s")
+
+
+def interp_stubs():
+    """models for display_interpolation (prqlc codegen): String += &str, iteration over the slice of parts"""
+    def m_add_assign(I, st, a):
+        r, x = a
+        s = lstr(I, st, r)
+        I.write(st, r.depth, r.place, LStr(s.ch + lstr(I, st, x).ch))
+        return SUnit()
+
+    def m_slice_iter(I, st, a):
+        v = models.deref(I, st, a[0])
+        if not isinstance(v, SVec):
+            raise Inconclusive(f"K-interp: iteration over {v}")
+        return SAgg("cursor", "SliceIter", {0: v, "pos": 0})
+
+    def m_slice_next(I, st, a):
+        r = a[0]
+        c = models.deref(I, st, r)
+        v, i = c.f[0], c.f["pos"]
+        if i >= len(v.items):
+            return none()
+        nf = dict(c.f)
+        nf["pos"] = i + 1
+        I.write(st, r.depth, r.place, SAgg("cursor", "SliceIter", nf))
+        st.heap.append(v.items[i])
+        return some(SRef(-1, ("cell", len(st.heap) - 1)))
+
+    def m_write_expr(I, st, a):
+        return some(LStr([bv("a")]))
+
+    return [
+        (r"^<(std::string::|alloc::string::)?String as (std::ops::|core::ops::)?AddAssign<&str>>::add_assign$", m_add_assign),
+        (r"^(std::string::|alloc::string::)?String::push_str$", m_add_assign),
+        (r"^<&\[.*\] as IntoIterator>::into_iter$", m_slice_iter), (r"^core::slice::<impl \[.*\]>::iter$", m_slice_iter),
+        (r"^<(std|core)::slice::Iter<'_, .*> as Iterator>::next$", m_slice_next),
+        (r"^<(prqlc_parser::parser::)?pr::Expr as WriteSource>::write$", m_write_expr),
+        (r"^<WriteOpt as Clone>::clone$", lambda I, st, a: SOpaque("opt", False)),
+    ]
+
+
+def check_interp(R, drv, tier):
+    """K-interp (C14): the text `fmt` writes for an s-/f-string, read by the lexer's string reader, is the original text with every
+    brace doubled (the form the interpolation parser - combinators, not executed - turns back into the text) and expressions as {..}.
+    Printer: codegen::ast::display_interpolation (prqlc MIR); reader: multi_quoted_string's closure + parse_escape_sequence (parser MIR)."""
+    import core
+    import kernels
+    from kchecks import _account
+    t0 = time.time()
+    L = 2 if tier == "quick" else 3
+    LQ = 4 if tier == "quick" else 5
+    try:
+        register_enum("InterpolateItem", enum_from_source(__import__("os").path.join(core.REPO, "prqlc/prqlc-parser/src/generic.rs"), "InterpolateItem"))
+        pf = dict(kernels.load(r"^display_interpolation($|::promoted|::\{closure)"))
+        rf = kernels.load_parser(r"^(multi_quoted_string::\{closure#0\}|parse_escape_sequence)($|::promoted)")
+        reader = "multi_quoted_string::{closure#0}"
+        if "display_interpolation" not in pf or reader not in rf:
+            raise Inconclusive("display_interpolation or the string reader not found in the MIR")
+        ppats = [(re.compile(p), f) for p, f in interp_stubs() + stubs()]
+        rpats = [(re.compile(p), f) for p, f in strlex.stubs()]
+    except Inconclusive as e:
+        R.engine_error(f"K-interp: {e}")
+        return
+    nprint = nread = nviol = nq = 0
+    seen = set()
+    keepI = []
+
+    def doubled(c):
+        """expected reading of one text character: braces doubled"""
+        return None
+
+    def report(texts, model, out, detail, shape):
+        nonlocal nviol
+        vals = ["".join(chr(model.eval(c, model_completion=True).as_long()) for c in t) for t in texts]
+        printed = "".join(chr(model.eval(c, model_completion=True).as_long()) for c in out)
+        key = (shape, tuple(vals))
+        if key in seen:
+            return
+        seen.add(key)
+
+        def src(t):
+            return "".join({"\\": "\\\\", '"': '\\"', "{": "{{", "}": "}}"}.get(c, c) if 0x20 <= ord(c) <= 0x7E else "\\u{%x}" % ord(c) for c in t)
+        body = src(vals[0]) if shape == "s" else src(vals[0]) + "{a}" + src(vals[1])
+        prog = f'from t\nderive x = f"{body}"\n'
+        r = drv.req(op="fmt", prql=prog)
+        if r.get("ok") and (not r.get("same_tree") or r.get("reparse_errors") or not r.get("idempotent")):
+            nviol += 1
+            R.violation({"engine": "mirsym", "kernel": "K-interp", "kind": "fmt_interpolation_roundtrip"},
+                        f"K-interp: the f-string text {vals!r} is printed as {printed!r}, which does not read back to it ({detail})",
+                        {"prql": prog, "formatted": r.get("formatted"), "text": repr(vals)})
+        elif r.get("ok"):
+            R.engine_error(f"ENCODER-MISMATCH K-interp: the model text {vals!r} (printed {printed!r}: {detail}) survives fmt + re-parse in the real code")
+        else:
+            R.cov.setdefault("unobservable_models", []).append(["K-interp", repr(vals), "replay program rejected: " + str(r.get("errors"))[:120]])
+
+    try:
+        runs = []
+        for n in range(L + 1):
+            runs.append(("s", [n], "any"))
+        for n in range(L + 1, LQ + 1):
+            runs.append(("s", [n], "special"))
+        for n1, n2 in ((0, 0), (1, 0), (0, 1), (1, 1)) + (((2, 1), (1, 2)) if tier != "quick" else ()):
+            runs.append(("ses", [n1, n2], "special"))
+        for shape, lens, alphabet in runs:
+            texts = [[z3.BitVec(f"ip{shape}{len(lens)}_{k}_{n}_c{i}", 32) for i in range(n)] for k, n in enumerate(lens)]
+            dom = []
+            for t in texts:
+                for c in t:
+                    dom.append(strlex.scalar(c) if alphabet == "any" else z3.Or(c == 34, c == 39, c == 92, c == 123, c == 125, z3.And(z3.UGE(c, 97), z3.ULE(c, 122))))
+            idx_s, idx_e = VARIANTS["InterpolateItem"].index("String"), VARIANTS["InterpolateItem"].index("Expr")
+            parts = [SEnum("InterpolateItem", idx_s, {idx_s: {0: LStr(texts[0])}})]
+            if shape == "ses":
+                parts += [SEnum("InterpolateItem", idx_e, {idx_e: {0: SOpaque("expr", False), "expr": SOpaque("expr", False), 1: SOpaque("format", False), "format": SOpaque("format", False)}}),
+                          SEnum("InterpolateItem", idx_s, {idx_s: {0: LStr(texts[1])}})]
+            I = Interp(pf, unwind=8 * sum(lens) + 16, timeout_s=600, max_paths=100000)
+            I.stub_patterns = ppats
+            I.lazy = False
+            st = State()
+            st.pc = list(dom)
+            st.heap.append(SVec(parts))
+            st.frames.append(I.new_frame("display_interpolation", [LStr([bv("f")]), SRef(-1, ("cell", 0)), SOpaque("opt", False)]))
+            I.deadline = time.time() + I.timeout_s
+            I.exits = []
+            I.explore(st)
+            keepI[:1] = [I]
+            for e in I.exits:
+                nprint += 1
+                v0 = e.value
+                if e.kind != "return" or not (isinstance(v0, SEnum) and v0.ty == "Option" and v0.disc == 1):
+                    v, model, dt = kernels.check(e.pc, z3.BoolVal(True))
+                    nq += 1
+                    R.q(v, dt)
+                    if v == "sat":
+                        report(texts, model, [], f"printer exit {e.kind} {e.msg or 'None'}", shape)
+                    continue
+                out = lstr(I, st, v0.pay[1][0]).ch
+                if len(out) < 3 or not z3.is_true(z3.simplify(z3.And(out[0] == bv("f"), out[1] == strlex.DQ))):
+                    R.engine_error("K-interp: the printed text does not start with the prefix and a double quote")
+                    continue
+                body = out[1:]
+                I2 = Interp(rf, unwind=3 * len(body) + 8, timeout_s=300, max_paths=20000)
+                I2.stub_patterns = rpats
+                I2.lazy = False
+                s2 = State()
+                s2.pc = list(e.pc)
+                s2.heap.append(SAgg("closure", "", {0: SInt(bv(strlex.DQ), 32, False), 1: SBool(z3.BoolVal(True))}))
+                s2.heap.append(SAgg("inputref", "", {0: sqlstr.Txt(body, z3.BitVecVal(len(body), 64), "printed"), "pos": 0}))
+                s2.frames.append(I2.new_frame(reader, [SRef(-1, ("cell", 0)), SRef(-1, ("cell", 1))]))
+                I2.deadline = time.time() + I2.timeout_s
+                I2.exits = []
+                I2.explore(s2)
+                keepI[1:] = [I2]
+                for x in I2.exits:
+                    nread += 1
+                    val = x.value
+                    pos = [t[1] for t in x.trace if isinstance(t, tuple) and t and t[0] == "pos"]
+                    fin = pos[-1] if pos else 0
+                    okv = x.kind == "return" and isinstance(val, SEnum) and val.ty == "Result" and val.disc == 0
+                    if not okv or fin != len(body):
+                        goal, detail = z3.BoolVal(True), (f"reader exit {x.kind} {x.msg or ''}" if not okv else f"the reader stops at position {fin} of {len(body)}")
+                    else:
+                        items = [it.t for it in val.pay[0][0].items]
+                        # expected: every text character once, braces twice; `{a}` between the two texts
+                        # decided as a match relation because the number of braces is symbolic
+                        exp_seq = [("t", c) for c in texts[0]]
+                        if shape == "ses":
+                            exp_seq += [("l", bv("{")), ("l", bv("a")), ("l", bv("}"))] + [("t", c) for c in texts[1]]
+                        memo = {}
+
+                        def match(i, j):
+                            if (i, j) in memo:
+                                return memo[(i, j)]
+                            if j == len(exp_seq):
+                                r_ = z3.BoolVal(i == len(items))
+                            elif i >= len(items):
+                                r_ = z3.BoolVal(False)
+                            else:
+                                kind, c = exp_seq[j]
+                                if kind == "l":
+                                    r_ = z3.And(items[i] == c, match(i + 1, j + 1))
+                                else:
+                                    brace = z3.Or(c == 123, c == 125)
+                                    one = z3.And(z3.Not(brace), items[i] == c, match(i + 1, j + 1))
+                                    two = z3.And(brace, items[i] == c, items[i + 1] == c, match(i + 2, j + 1)) if i + 1 < len(items) else z3.BoolVal(False)
+                                    r_ = z3.Or(one, two)
+                            memo[(i, j)] = r_
+                            return r_
+                        goal, detail = z3.Not(match(0, 0)), "the text read back differs"
+                    v, model, dt = kernels.check(x.pc, goal, timeout_ms=60000)
+                    nq += 1
+                    R.q(v, dt)
+                    if v == "unknown":
+                        R.engine_error("K-interp: unknown")
+                    if v == "sat":
+                        report(texts, model, out, detail, shape)
+    except Inconclusive as e:
+        R.engine_error(f"K-interp: {e}")
+        return
+    for I in keepI:
+        _account(R, I, "K-interp")
+    if nread < nprint or nprint < 3:
+        R.engine_error(f"K-interp: vacuous - {nprint} printer paths, {nread} reader paths")
+    R.cov["states"] = R.cov.get("states", 0) + nprint + nread
+    R.sample({"kernel": "K-interp", "printer_paths": nprint, "reader_paths": nread, "queries": nq,
+              "property": f"for every interpolated string with one text item of <= {L} characters (every scalar; <= {LQ} over quotes, backslash, braces, letters) or text-expression-text, "
+              "the lexer's string reader returns the text with doubled braces (and {a} for the expression) from what display_interpolation wrote", "wall_s": round(time.time() - t0, 2)})
+    R.cov.setdefault("bounds", {})["K-interp"] = (f"one text item of <= {L} characters over all scalars / <= {LQ} over the alphabet {{\", ', \\, {{, }}, a-z}}; text + expression + text with <= 1 (quick) / 2 characters each; "
+                                                  "the expression's own text is a stub; the interpolation parser (combinators) is not executed")
+    core.log(f"[K-interp] {nprint} printer paths, {nread} reader paths, {nq} queries, {nviol} violations in {time.time()-t0:.1f}s")
